@@ -133,6 +133,115 @@ CLAIMED.update({
              'model as for C01; partial: parsers are not modelled. Open finding: D8b.',
         technique='Coq proof (loader/wrapper model over the script model) + four-format load correspondence + all-pairs differential diffs'),
 })
+
+CLAIMED.update({
+    'C06': dict(
+        text='Theorems over a character-exact model of the JSON diff rendering (jrender: Match/Replace/Remove/Insert.print, '
+             'SequenceFormatter delimiter counters, print_StringEdit run batching, key/value pairs, both layouts; each character carries '
+             'its mark): for ALL trees and scripts, erasing what is marked inserted (resp. removed) leaves a stream that tokenises like the '
+             'plain print of the first (resp. second) projection of the script (C06_first / C06_second, ~ = equal token lists: commas and '
+             'whitespace outside string literals only separate tokens, literals/atoms/brackets are kept), which parses through the C12 reader '
+             '(C06_reads); for valid ordered scripts the projections ARE the two documents (C06_text_partial, C06_reads_ordered_partial: '
+             'lists, leaves, strings, key/value pairs; for mapping edits the identification of the projection with the document up to member '
+             'order is evaluated on every implementation output only); marks = [] <-> no non-zero edit (C06_marks), <-> cost 0 under '
+             'additivity (C06_marks_cost). Open findings with refutation witnesses: D33 (a mapping replaced inside a list is rendered '
+             '`from -> to -> to`), D4 (cross-type zero-cost match printed once), D16 refutes marks<->cost. Tie: the ANSI output of the real '
+             'JSONFormatter is decoded per character (pure decoder) and compared with jrender on the implementation\'s own script; '
+             'holds_C06 parses both projections of the implementation\'s stream with the lenient reader.',
+        design_ref='5.6',
+        note='Trusted: Coq kernel + VM; the ANSI decoder of the harness; C12\'s reader as the parser; partial as stated (mapping edits, '
+             'no model of the no-colour text). Open findings: D4, D33.',
+        technique='Coq proof (structural induction over scripts with the delimiter-counter invariant) + per-character rendering correspondence'),
+    'C07': dict(
+        text='partial by nature: a theorem cannot exhibit hash randomisation or allocation order. Proved: in the script model every '
+             'hash-/address-dependent choice is an explicit adversary argument; the set-order adversary has no influence at all on the '
+             'current source (C07_order_irrelevant_now, discharged against the flag re-translated from graphtage.py on every run - it '
+             'breaks if a set is reintroduced, with C07_hash_order_refuted_if as the witness that the dependence is then real); two '
+             'equally good matching answers give the same cost and exit status (C07_match_cost_partial; optimality of scipy is C15\'s '
+             'contract). Completeness of the declared adversaries: a translator pass lists every set iteration / id() / hash() / '
+             'address-repr site in graphtage/*.py against a hand-audited table (an unlisted site is a broken tie; C07_sites_audited). '
+             'Observed: every case is run as fresh processes under several PYTHONHASHSEEDs, a perturbed allocation order and '
+             'PYTHONMALLOC=malloc, and repeatedly in one process; stdout bytes and exit status must be identical; structural snapshots '
+             'of both input trees before/after diff, get_all_edits and printing must be equal.',
+        design_ref='5.7',
+        note='Trusted: Coq kernel + VM; translator gen_det.py and its audited site table; the runtime cannot be modelled (partial). Open '
+             'findings on the library path: D34 (Python sets expanded in hash order by BasicBuilder), D35 (placeholder text is an address).',
+        technique='Coq proof (adversary-independence of the script model) + audited translator pass over nondeterminism sites + multi-seed / multi-allocation process runs'),
+    'C08': dict(
+        text='Theorems for all documents with distinct string keys: under the DictNode strategies the builder model sorts, so any '
+             'key-permuted copy (dperm, any depth) builds the IDENTICAL tree and the whole script is identical (C08_build_canonical_, '
+             'C08_dict_script_); under strategy none the trees differ by permutations of FixedKeyDict children (C08_tree_perm) and the cost '
+             'of the script is invariant, for any two oracles (C08_tperm_cost / C08_fixed_cost_ / C08_cost_), with the top-level pairing '
+             'invariant (C08_pairing; deeper levels: checked on the implementation only); a document and its permuted copy are equal as '
+             'data, == and cost 0 (C08_equal_, C08_node_equal_, C08_copy_zero_); swapping two data-unequal list elements costs > 0 '
+             '(C08_swap_partial_, inheriting C02\'s carve-outs D4/D16, with refutation witnesses). Tie: built trees equal the model build of '
+             'the permuted value; costs, pair sets (canonicalised in Coq), == and copy cost compared across arrangements.',
+        design_ref='5.8', note=SCRIPT_NOTE + ' Open findings: D4, D16 (swap clause). Mixed-type YAML keys are outside the theorems '
+             '(non-transitive fallback order); reported in evidence.',
+        technique='Coq proof (sorted canonical form; permutation invariance of the fixed-dict script by induction over trees) + build/script correspondence across key arrangements'),
+    'C13': dict(
+        text='Theorems over a model of the formatter resolution protocol (_get_formatter MRO walk, sub-formatters, parents, global list) '
+             'and the single-assignment parent guard, on tables extracted from the code on every run (formatter classes and print methods by '
+             'reflection, print-method summaries by ast, hand-audited grammar tables tied to source hashes): every configuration reachable '
+             'while rendering ANY tree of an input type lies in a finite reach set (C13_cover, induction over the rendering relation; '
+             'closedness by one vm_compute over the finite tables, sizes stated), every such configuration resolves to a printer '
+             '(C13_dispatch_total), and outside the two model-defined open finding classes (D9 re-parenting, D19 plist null) every node is '
+             'rendered without internal error (C13_partial); C13_refuted gives three witnesses. Tie: the configuration product (8 inputs x '
+             '8 formats x modes x styles x equal/different) is run through the real main(); completion vs exception and every recorded '
+             'dispatch event must equal the model\'s.',
+        design_ref='5.13',
+        note='Trusted: Coq kernel + VM; translator gen_dispatch.py incl. hand-audited tables (hash-guarded); exceptions outside the three '
+             'modelled kinds are only found by the enumeration (partial). Open findings: D9, D19.',
+        technique='Coq proof (finite reachability fixpoint lifted by induction over trees) + exhaustive configuration-product correspondence'),
+    'C16': dict(
+        text='Theorem C16 (closed under the global context), for ANY strict total order and ANY operation history: the list-based model '
+             'of the Fibonacci heap (a transcription of the pointer structure: root/child rings, _extract_min, _consolidate, _cut, '
+             '_cascading_cut, deleted flags) never errs or runs out of fuel, keeps Inv (unique ids, heap order, _n = node count, _min minimal), '
+             'len = number of live items, peek/pop return a minimal live item and pop removes exactly it, push/decrease_key/remove act on '
+             'the abstract multiset as specified (C16_operation); instantiated for min- and max-heap; smallest/largest helpers satisfy their '
+             'spec. Tie: structure-exact lock-step after every operation (root order, child order, degrees, marks, _min, _n, return values) '
+             'on sampled exhaustive short histories and long random ones.',
+        design_ref='5.16',
+        note='Trusted: Coq kernel + VM; the hand-written model tied by lock-step correspondence; non-member arguments of decrease_key/remove '
+             '(undefined by the docstring) are not modelled.',
+        technique='Coq proof (invariant + refinement to a multiset by induction over operation histories) + structure-exact lock-step correspondence'),
+    'C17': dict(
+        text='Theorems for all finite collections of items given as sound tightening schedules and all adversary inputs (id() tie-breaks, '
+             'interval-tree order, heap tie order), with explicit sufficient fuel: the tightening comparator terminates and agrees with final '
+             'order (C17_lt/le), min_bounded returns a minimum (C17_min), make_distinct terminates leaving every pair disjoint or both '
+             'definitive (C17_distinct), IterativeTighteningSearch.search terminates with an item of minimum final cost and bounds equal to '
+             'that single value (C17_search, by an invariant: every input is dominated by a live item, heap keys are sound); ordering: '
+             'C17_sort_partial (for every comparison/pop trace the result is a sorted permutation or the trace is rejected; that graphtage\'s '
+             'heap produces an accepted trace is C16 restated for a tightening comparator and is checked by correspondence only). Tie: '
+             'synthetic Bounded items driven by the same schedules; every tighten event and result must equal the model\'s.',
+        design_ref='5.17',
+        note='Trusted: Coq kernel + VM; hand mirror of bounds.py Range tied by correspondence; heap inside sort is a validated oracle (partial).',
+        technique='Coq proof (invariants with a decreasing schedule measure) + event-exact correspondence on synthetic schedules'),
+    'C18': dict(
+        text='Theorems over an explicit-stack model of Builder.build_tree (frames, ancestor identity scan, cycle options, placeholder) for '
+             'ALL finite object graphs: the machine refines a big-step build with a stated fuel bound and always terminates under cycle '
+             'checking (C18_machine_refines, C18_terminates); on acyclic graphs (any sharing) it builds a tree whose to_obj equals the unfolded '
+             'value (tuples as lists, sets as multisets), copy equals the tree, no placeholder and no cycle error (C18_acyclic_partial, '
+             'C18_shared_partial); a graph reaching a cycle yields CycleError or, when ignored, a placeholder (C18_cyclic_partial); BasicBuilder '
+             'and pydiff agree (C18_builders_agree). _partial: custom objects and non-scalar keys are outside the proved domain (modelled and '
+             'checked by correspondence). Open findings with witnesses: D18, D28, D31, D32. Tie: generated graphs built as real Python objects '
+             'through json.build_tree, BasicBuilder, pydiff under all options; tree, to_obj, copy, exception class compared.',
+        design_ref='5.18',
+        note='Trusted: Coq kernel + VM; hand-written model tied by correspondence; set iteration order and dir() order are oracle inputs.',
+        technique='Coq proof (machine/big-step refinement, termination measure, induction on acyclic unfolding) + object-graph correspondence'),
+    'C20': dict(
+        text='Theorem C20_full (unconditional for the tables re-translated from the source on every run): for every text format and every '
+             'exception class in the raises table, the handler returns a message naming the file, main() writes it to stderr, nothing to '
+             'stdout, exits non-zero, and nothing escapes - for either file position. Handler clauses, f-string pieces (incl. the '
+             'format-spec -> TypeError rule), the exception lattice and main()\'s error blocks are extracted by the translator; a regression '
+             'breaks C20_table_total / main_path_ok and the fault enumeration then supplies the concrete malformed file. That the raises '
+             'table is complete for the third-party parsers is established by the fault enumeration only (truncation at every byte, '
+             'delimiter/tag/encoding corruptions, kept when the loader rejects them).',
+        design_ref='5.20',
+        note='Trusted: Coq kernel + VM; translator gen_handlers.py; completeness of raises_table (enumeration, partial). Binary plists are '
+             'outside the domain (D13e observed only).',
+        technique='Coq proof over handler tables translated from source (finite table check lifted to all exceptions/paths) + fault enumeration through main()'),
+})
 NOT_YET = 'model and theorem not completed yet (DESIGN.md section 7)'
 NA = {}
 
